@@ -68,6 +68,69 @@ def encoder(t, e):
   raise tiera.Unsupported(f"driver cannot encode type {t}")
 
 
+GETTER = {"V2": "getV2", "V3": "getV3", "V4": "getV4", "Q": "getQ", "V5": "getV5", "V6": "getV6", "V10": "getV10", "M33": "getM33", "M22": "getM22",
+          "I2": "getI2", "I3": "getI3", "I4": "getI4", "I6": "getI6"}
+
+
+def kernel_entry(modname, m, f):
+  """Lean call of a generated kernel with arrays served from a `Mem` and scalars from tokens."""
+  ptypes, rtype = m.sigs[f]
+  args, scal = [], []
+  for pn, t in zip(m.pnames[f], ptypes):
+    if isinstance(t, tuple) and t[0] == "arr":
+      et, nd = t[1], t[2]
+      vs = [f"i{k}" for k in range(nd)]
+      ix = "[" + ", ".join(vs) + "]"
+      if et == tiera.F:
+        g = f"Mem.getF m \"{pn}\" {ix} 0"
+      elif et == tiera.I:
+        g = f"Mem.getI m \"{pn}\" {ix} 0"
+      elif et == tiera.B:
+        g = f"(Mem.getI m \"{pn}\" {ix} 0 != 0)"
+      elif et in GETTER:
+        g = f"Mem.{GETTER[et]} m \"{pn}\" {ix}"
+      else:
+        raise tiera.Unsupported(f"array element type {et}")
+      args.append("(fun " + " ".join(vs) + f" => {g})")
+    else:
+      e, _ = reader(t, len(scal))
+      n = {True: 1}.get(t in (tiera.F, tiera.I, tiera.B), None)
+      if n is None:
+        w = tiera.VEC.get(t) or (tiera.MAT[t][0] * tiera.MAT[t][1] if t in tiera.MAT else None)
+        if w is None:
+          raise tiera.Unsupported(f"scalar parameter type {t}")
+        n = w
+      scal += [(pn, t)] * n
+      args.append(e)
+  ntid = 0
+  for en, et in m.extras.get(f, []):
+    if en.startswith("tid"):
+      args.append(f"(tid[{ntid}]!)")
+      ntid += 1
+    elif "_shape" in en:
+      pn, dim = en.rsplit("_shape", 1)
+      args.append(f"(Mem.shape m \"{pn}\" {dim})")
+    elif et == "Int":
+      args.append(f"(a[{len(scal)}]!.toInt!)")
+      scal.append((en, "I"))
+    elif et == "Bool":
+      args.append(f"(a[{len(scal)}]! == \"1\")")
+      scal.append((en, "B"))
+    elif et == "Nat":
+      args.append(f"(a[{len(scal)}]!.toNat!)")
+      scal.append((en, "N"))
+    elif et == "K":
+      args.append(f"(Codec.dec a[{len(scal)}]!)")
+      scal.append((en, "F"))
+    else:
+      raise tiera.Unsupported(f"extra parameter {en} : {et}")
+  body = "(" + m.qualified(f) + " (K := K) " + " ".join(args) + ")"
+  m.kernel_scalars = getattr(m, "kernel_scalars", {})
+  m.kernel_scalars[f] = {"scalars": [[n, t] for n, t in scal], "ntid": ntid,
+                         "arrays": [[pn, repr_type(t)] for pn, t in zip(m.pnames[f], ptypes) if isinstance(t, tuple) and t[0] == "arr"]}
+  return (f"{modname}.{f}", body, scal)
+
+
 def run(targets=None, verbose=False):
   targets = targets or TARGETS
   reg = tiera.Registry()
@@ -89,12 +152,13 @@ def run(targets=None, verbose=False):
         deps[m.pyname].add(other.pyname)
   changed = []
   dispatch_entries = []
+  kernel_entries = []
   for modname, m in reg.mods.items():
     fl = by_mod.get(modname, [])
     lines = [
       f"/- GENERATED by harness/translate (tier A) from /repo/mujoco_warp/_src/{modname}.py — do not edit.",
       "   Regenerated on every check run; theorems in Props/ are therefore about the code as it is now. -/",
-      "import MjwVerif.Model.Vec",
+      "import MjwVerif.Model.Kernel",
     ]
     for d in sorted(deps[modname]):
       lines.append(f"import MjwVerif.Gen.{d.capitalize()}")
@@ -115,6 +179,15 @@ def run(targets=None, verbose=False):
     report["unsupported"] += len(m.errors)
     for f in fl:
       ptypes, rtype = m.sigs[f]
+      if m.kinds.get(f) in ("kernel", "wfunc") or any(isinstance(t, tuple) and t[0] == "arr" for t in ptypes):
+        if m.kinds.get(f) == "kernel":
+          try:
+            kernel_entries.append(kernel_entry(modname, m, f))
+          except tiera.Unsupported as e:
+            report.setdefault("kernel_dispatch_skipped", {})[f"{modname}.{f}"] = str(e)
+        continue
+      if m.extras.get(f):
+        continue
       try:
         off = 0
         args = []
@@ -129,7 +202,7 @@ def run(targets=None, verbose=False):
   # dispatch file
   dl = [
     "/- GENERATED: driver dispatch for the func-level correspondence (harness/corr/func_corr.py). -/",
-    "import MjwVerif.Model.Codec",
+    "import MjwVerif.Model.Mem",
   ]
   for modname in reg.mods:
     dl.append(f"import MjwVerif.Gen.{modname.capitalize()}")
@@ -141,6 +214,14 @@ def run(targets=None, verbose=False):
     kw = "if" if i == 0 else "else if"
     dl.append(f"  {kw} name == \"{name}\" then (if a.size == {nargs} then some (drv{i} (K := K) a) else none)")
   dl.append("  else none" if dispatch_entries else "  none")
+  dl.append("")
+  for i, (name, body, scal) in enumerate(kernel_entries):
+    dl.append(f"def kdrv{i} {{K : Type}} [Scalar K] [Codec K] (m : Mem K) (a : Array String) (tid : Array Int) : String :=\n  encWrites ({body})\n")
+  dl.append("def kdispatch {K : Type} [Scalar K] [Codec K] (name : String) (m : Mem K) (a : Array String) (tid : Array Int) : Option String :=")
+  for i, (name, body, scal) in enumerate(kernel_entries):
+    kw = "if" if i == 0 else "else if"
+    dl.append(f"  {kw} name == \"{name}\" then (if a.size == {len(scal)} then some (kdrv{i} (K := K) m a tid) else none)")
+  dl.append("  else none" if kernel_entries else "  none")
   dl.append("end Mjw.Gen")
   if write_if_changed(os.path.join(GEN, "Dispatch.lean"), "\n".join(dl) + "\n"):
     changed.append("Dispatch.lean")
@@ -149,7 +230,10 @@ def run(targets=None, verbose=False):
   for modname, m in reg.mods.items():
     for f in by_mod.get(modname, []):
       ptypes, rtype = m.sigs[f]
-      sigs[f"{modname}.{f}"] = {"params": [repr_type(t) for t in ptypes], "ret": repr_type(rtype), "py": f"{modname}.{m.pynames[f]}"}
+      sigs[f"{modname}.{f}"] = {"params": [repr_type(t) for t in ptypes], "ret": repr_type(rtype), "py": f"{modname}.{m.pynames[f]}",
+                                "kind": m.kinds.get(f, "func"), "extras": [list(x) for x in m.extras.get(f, [])], "static_exprs": m.statics.get(f, {})}
+      if f in getattr(m, "kernel_scalars", {}):
+        sigs[f"{modname}.{f}"]["kernel"] = m.kernel_scalars[f]
   report["signatures"] = sigs
   write_if_changed(os.path.join(GEN, "report.json"), json.dumps(report, indent=1, sort_keys=True))
   return report
